@@ -1,5 +1,160 @@
-"""placeholder: filled in below"""
-def run_for_check(chk, pid):
-    return None
-def run_selftest(pids, jobs):
-    return 0
+"""Checker self-test (thorough tier): the rules must fire on variants that break a
+property and stay silent on behaviour-preserving variants.  Variants are
+scratch copies of /repo/pokerkit (sources only) in a temporary directory outside
+/repo and /verif, removed before exit.  They are analysed statically like the
+real tree - nothing is executed."""
+from __future__ import annotations
+
+import glob
+import json
+import os
+import shutil
+import subprocess
+import tempfile
+from concurrent.futures import ProcessPoolExecutor
+
+from .model import AnalysisError, PKG, REPO
+
+VERIF = os.path.dirname(os.path.dirname(os.path.abspath(__file__)))
+SOURCES = ('__init__', 'utilities', 'lookups', 'hands', 'state', 'games', 'notation', 'analysis')
+
+
+def _copy_sources(dst, repo=None):
+    os.makedirs(os.path.join(dst, PKG))
+    for m in SOURCES:
+        src = os.path.join(repo or REPO, PKG, f'{m}.py')
+        if os.path.exists(src):
+            shutil.copy(src, os.path.join(dst, PKG, f'{m}.py'))
+
+
+def _analyse(repo, pid):
+    """(exit code, [failing rule ids]) of one check on a scratch tree; in-process, no evidence written"""
+    from .ctx import Ctx
+    from .report import Check
+    import importlib
+    import io
+    import contextlib
+    os.environ['PKSTATIC_NO_EVIDENCE'] = '1'
+    try:
+        ctx = Ctx(repo, 'quick')
+        chk = Check(pid, 'quick', ctx.prog)
+        importlib.import_module(f'pkstatic.rules.{pid.lower()}').run(chk, ctx)
+        from .report import load_known
+        known, _ = load_known()
+        fails = [o.rule for o in chk.obs if not o.ok and (pid, o.rule, o.construct) not in known]
+        if fails:
+            return 1, sorted(set(fails))
+        for rule, n in chk.floors.items():
+            if chk.instances.get(rule, 0) < n:
+                return 2, [f'floor:{rule}']
+        return 0, []
+    except AnalysisError as ex:
+        return 2, [f'analysis-error: {ex}']
+    except Exception as ex:  # noqa
+        return 3, [f'crash: {type(ex).__name__}: {ex}']
+
+
+def _run_variant(job):
+    kind, pids, module, old, new, rule, patch, name = job
+    d = tempfile.mkdtemp(prefix='pkstatic-variant-')
+    try:
+        _copy_sources(d)
+        if patch:
+            r = subprocess.run(['git', 'apply', patch], cwd=d, capture_output=True, text=True)
+            if r.returncode != 0:
+                return dict(name=name, kind=kind, status='stale', detail='patch does not apply to the current tree')
+        else:
+            path = os.path.join(d, PKG, f'{module}.py')
+            src = open(path, encoding='utf-8').read()
+            if old not in src:
+                return dict(name=name, kind=kind, status='stale', detail='text to edit not present in the current tree')
+            src = src.replace(old, new, 1)
+            try:
+                compile(src, path, 'exec')
+            except SyntaxError as ex:
+                return dict(name=name, kind=kind, status='stale', detail=f'variant does not compile: {ex}')
+            open(path, 'w', encoding='utf-8').write(src)
+        results = {pid: _analyse(d, pid) for pid in pids}
+        if kind == 'fire':
+            ok = any(rc == 1 and (rule is None or any(f.startswith(rule) for f in fails)) for rc, fails in results.values())
+            alt = any(rc in (1, 2) for rc, _ in results.values())
+            return dict(name=name, kind=kind, status='ok' if ok else ('other-rule' if alt else 'MISSED'),
+                        detail={p: r for p, r in results.items()}, rule=rule)
+        bad = {p: r for p, r in results.items() if r[0] != 0}
+        return dict(name=name, kind=kind, status='ok' if not bad else 'FALSE-ALARM', detail=bad)
+    finally:
+        shutil.rmtree(d, ignore_errors=True)
+
+
+def jobs_for(pids=None):
+    from .corpus import FIRE, SILENT
+    jobs = []
+    for i, (pid, module, old, new, rule) in enumerate(FIRE):
+        if pids and pid not in pids:
+            continue
+        jobs.append(('fire', (pid,), module, old, new, rule, None, f'fire-{i:03d}-{pid}-{rule}'))
+    for i, (ps, module, old, new) in enumerate(SILENT):
+        ps2 = tuple(p for p in ps if not pids or p in pids)
+        if ps2:
+            jobs.append(('silent', ps2, module, old, new, None, None, f'silent-{i:03d}-{"+".join(ps2)}'))
+    for patch in sorted(glob.glob(os.path.join(VERIF, 'seeded', '*', 'patch.diff'))):
+        name = os.path.basename(os.path.dirname(patch))
+        pid = name.split('_')[0]
+        if pids and pid not in pids:
+            continue
+        meta = {}
+        try:
+            meta = json.load(open(os.path.join(os.path.dirname(patch), 'meta.json')))
+        except Exception:  # noqa
+            pass
+        expect = meta.get('expected_checks') or [pid]
+        if meta.get('not_statically_decidable'):
+            continue
+        jobs.append(('fire', tuple(expect), None, None, None, None, patch, f'seeded-{name}'))
+    return jobs
+
+
+def run_jobs(jobs, workers=16):
+    if not jobs:
+        return []
+    with ProcessPoolExecutor(max_workers=min(workers, len(jobs))) as ex:
+        return list(ex.map(_run_variant, jobs))
+
+
+def run_for_check(chk, pid) -> None:
+    """thorough tier of one property: run its part of the corpus and record the outcome"""
+    res = run_jobs(jobs_for({pid}))
+    _record(chk, res)
+
+
+def _record(chk, res) -> None:
+    missed = [r for r in res if r['status'] == 'MISSED']
+    alarms = [r for r in res if r['status'] == 'FALSE-ALARM']
+    stale = [r for r in res if r['status'] == 'stale']
+    fired = [r for r in res if r['kind'] == 'fire' and r['status'] in ('ok', 'other-rule')]
+    silent = [r for r in res if r['kind'] == 'silent' and r['status'] == 'ok']
+    chk.extra['programs'] = len(res) - len(stale)
+    chk.extra['disagreements_checked'] = len(fired) + len(silent)
+    chk.extra['selftest'] = {
+        'must_fire': len([r for r in res if r['kind'] == 'fire']), 'fired': len(fired),
+        'must_stay_silent': len([r for r in res if r['kind'] == 'silent']), 'silent': len(silent),
+        'stale': [r['name'] for r in stale], 'missed': [r['name'] for r in missed], 'false_alarms': [r['name'] for r in alarms],
+        'other_rule': [r['name'] for r in res if r['status'] == 'other-rule'],
+    }
+    if missed or alarms:
+        raise AnalysisError('checker self-test failed: missed ' + ', '.join(r['name'] for r in missed)
+                            + ' / false alarms ' + ', '.join(f"{r['name']} {r['detail']}" for r in alarms))
+
+
+def run_selftest(pids, jobs_n=16) -> int:
+    res = run_jobs(jobs_for(set(p.upper() for p in pids) or None), jobs_n)
+    bad = 0
+    for r in res:
+        if r['status'] in ('MISSED', 'FALSE-ALARM'):
+            bad += 1
+            print(r['status'], r['name'], r['detail'])
+        elif r['status'] in ('stale', 'other-rule'):
+            print(r['status'], r['name'], r.get('detail') if r['status'] == 'stale' else {p: v[1][:2] for p, v in r['detail'].items()})
+    print(f'selftest: {len(res)} variants, {sum(r["status"] == "ok" for r in res)} ok, '
+          f'{sum(r["status"] == "other-rule" for r in res)} caught by another rule, {sum(r["status"] == "stale" for r in res)} stale, {bad} bad')
+    return 2 if bad else 0
